@@ -305,7 +305,6 @@ func runC07Tokens(env *Env, rc *RunCtx, sys *Sys, dom Domain) {
 	}
 }
 
-
 // mode traverse: the internal consumers of paging. A node with N subject-set
 // rows (N around 1000, 2000: boundaries a traversal might page at; none copied
 // from the code), exactly one of which - at a chosen position in storage order
